@@ -399,6 +399,12 @@ def monomial_checks(st0, m, name, lab, tier, out):
         derived_basis_checks(st0, m, mt, name, lab, tier, out, bad, maps, fv, subs, bfac, ifac)
     except NotImplementedError:
         out.count('derived_bases_not_implemented')
+    except Exception as e:
+        # every construction in there is a legal use of the public API (it works on the unchanged tree)
+        import traceback
+        tb = traceback.extract_tb(e.__traceback__)
+        where = next((f"{fr.name}:{fr.line}" for fr in tb if fr.filename.endswith('c02.py') and fr.name != 'monomial_checks'), '')
+        bad('derived-basis-exception', f"a derived / explicitly parametrised basis raised {e!r} at [{where[:160]}]")
     out.sample({'seed': name, 'variant': lab, 'class': type(m).__name__, 'cells': int(nt), 'orders': [0, nmax],
                 'subdomain_tags': len(subnames)}, 1)
 
